@@ -326,6 +326,12 @@ impl Move {
     pub fn as_raw(&self) -> u32 {
         self.0
     }
+
+    /// Verification hook: rebuild a move from its raw bits.
+    #[cfg(weechess_verif)]
+    pub fn from_raw(raw: u32) -> Self {
+        Self(raw)
+    }
 }
 
 impl Display for Move {
